@@ -11,7 +11,7 @@
 EXTENDS TraceLib, TagRecords
 
 JP == INSTANCE JobPlan WITH MaxContigs <- 0, MaxN <- 0, MaxStar <- 0, Modes <- {}, Variant <- "design",
-                            layout <- <<>>, nstar <- 0, mode <- "", pc <- "", i <- 0, current <- <<>>, jobs <- <<>>,
+                            layout <- <<>>, nstar <- 0, mode <- "", noRejects <- FALSE, pc <- "", i <- 0, current <- <<>>, jobs <- <<>>,
                             pending <- {}, parts <- <<>>, out <- <<>>, indexed <- FALSE
 
 VARIABLE l
@@ -48,7 +48,10 @@ RunVerdict(e) ==
 (* D-level conformance, informational only (DIVERGENCE): the jobs the workers ran are the planned ones *)
 RunNote(e) == IF e.mode = "multi" /\ e.raised = "" /\ ~SameBag(e.jobs_planned, e.jobs_run) THEN "divergence_jobs_run_differ_from_plan"
               ELSE ""
-PlanNote(e) == IF e.regions_used THEN "region_mode_plan" ELSE ""
+IdxStats(e) == [k \in DOMAIN e.idx |-> [cid |-> e.idx[k][1], small |-> e.idx[k][2] < JP!SmallThreshold]]
+PlanNote(e) == IF e.regions_used THEN "region_mode_plan"
+               ELSE IF e.jobs # JP!PlanOf(IdxStats(e), "*") THEN "divergence_plan_differs_from_design_plan"
+               ELSE ""
 
 Verdict(e) == CASE e.ev = "plan" -> PlanVerdict(e)
                 [] e.ev = "run"  -> RunVerdict(e)
